@@ -14,7 +14,7 @@ from ..defs_emit_common import (COQ_HEADER, DIFF_NAMES, F, build_corpus, closure
 THEOREMS = ["C15_total", "C15_total_closure", "C15_total_ex", "C15_scoped_py_partial", "C15_scoped_c_partial",
             "C15_scoped_matlab_partial", "C15_scoped_js_partial", "C15_py_registers_every_message",
             "C15_scoped_refuted_alias_of_struct", "C15_scoped_refuted_struct_of_msg", "C15_js_alias_field_ok",
-            "C15_scoped_refuted_matlab_header", "C15_js_fresh", "C15_js_calls_disjoint", "C15_js_fresh_ex",
+            "C15_matlab_header_only_when_defined", "C15_js_fresh", "C15_js_calls_disjoint", "C15_js_fresh_ex",
             "C15_ex_loads_everywhere"]
 OPS = ["load_py", "load_c", "load_js"]
 
